@@ -507,16 +507,22 @@ def load_meta(pid):
         return json.load(f)[pid]
 
 
-def confirm_violation(binary, path, known, times=3):
-    """A reported input must fail in each of `times` fresh processes."""
+def confirm_violation(binary, path, known, times=3, need=None):
+    """A reported input must fail in each of `times` fresh processes (deterministic properties).
+    Where a thread schedule takes part in the case (C10, C11) the oracles are hard facts about one
+    execution (an index processed 0 times, a result that differs from the sequential one): there
+    `need` of `times` replays must fail."""
+    need = times if need is None else need
     fails = 0
     last = ""
-    for _ in range(times):
+    for k in range(times):
         rc, so, se = replay_once(binary, path, known)
         if rc == 1 or is_crash(rc):
             fails += 1
             last = so + se[-3000:]
-    return fails == times, last
+        if fails >= need or fails + (times - k - 1) < need:
+            break
+    return fails >= need, last
 
 
 def save_replay(pid, data, tag, arg=None):
@@ -607,17 +613,29 @@ def check(pid, tier):
 
     # semantic violations (already shrunk in-process by rapidcheck): confirm 3x in fresh processes
     reported = set()
-    for v in agg["violations"][:3]:
+    scheduled = len(variants) > 1  # a thread schedule is part of every case (C10, C11)
+    cands = agg["violations"]
+    if scheduled:
+        # enumerated order constraints first, the most stable in-process failures first
+        cands = sorted(cands, key=lambda v: (0 if v.get("shard", 0) >= 1000 else 1, 0 if "[failed 3 of 3" in v.get("detail", "") else 1))
+    confirmed = 0
+    for v in cands[:(16 if scheduled else 3)]:
+        if confirmed >= 3:
+            break
         data = bytes.fromhex(v["bytes_hex"])
         p = save_replay(pid, data, "viol", tcfg.get("arg", 0))
         if p in reported:
             continue
         reported.add(p)
-        ok, last = confirm_violation(v["binary"], p, known)
+        if scheduled:
+            ok, last = confirm_violation(v["binary"], p, known, times=6, need=2)
+        else:
+            ok, last = confirm_violation(v["binary"], p, known)
         if ok:
+            confirmed += 1
             violations.append((p, "%s: %s | case: %s" % (v["kind"], v["detail"][:400], v["desc"][:600])))
         else:
-            notes.append("a generated failure did not reproduce 3/3 in fresh processes (not reported): %s (%s)" % (p, v["kind"]))
+            notes.append("a generated failure did not reproduce %s in fresh processes (not reported): %s (%s)" % ("2/6" if scheduled else "3/3", p, v["kind"]))
     # dead shards (sanitizer report, assertion, watchdog): shrink out of process, confirm
     seen_sig = set()
     for r in dead:
@@ -657,6 +675,11 @@ def check(pid, tier):
                 desc = line[5:700]
         if ok:
             violations.append((p, "%s | case: %s" % (sig, desc)))
+        elif sig == "non-termination (case watchdog)":
+            # the stopwatch expired in some replays and not in others, with no provably stuck
+            # state: slowness (load, perturbation plan), inconclusive by design - time alone is
+            # never a verdict; a genuine hang (D14) expires in every replay
+            notes.append("shard %d: a case exceeded the per-case watchdog in some replays only (inconclusive, not a violation): %s | case: %s" % (r["shard"], p, desc[:300]))
         else:
             sys.stderr.write(r["stderr"][-4000:] + "\n")
             violations.append((p, "process died: %s (reproduces only sometimes; output above) | case: %s" % (sig, desc)))
